@@ -4,6 +4,7 @@ import Parmcb.Driver.Fp
 import Parmcb.Driver.Graph
 import Parmcb.Driver.Knob
 import Parmcb.Driver.Dimacs
+import Parmcb.Driver.Demo
 open Parmcb.Driver
 
 def dispatch (c : Case) : String :=
@@ -16,6 +17,7 @@ def dispatch (c : Case) : String :=
   | "exact" => handleExact c
   | "knob" => handleKnob c
   | "dimacs" => handleDimacs c
+  | "demo" => handleDemo c
   | "spanner" => handleSpanner c
   | "trees" => handleTrees c
   | "cands" => handleCands c
